@@ -356,6 +356,26 @@ _skB_forged = {**_skB, "bundles": [dict(b_, sigs=a_["sigs"], keys=[k_ for k_ in 
 judge("skr", ksrxml.render_skr(_skA).encode(), "sequence:honest-skr-first", {"num_bundles": 2}, expect="object")
 judge("skr", ksrxml.render_skr(_skB_forged).encode(), "sequence:skr-other-ksk-under-known-identifier-with-the-first-file's-signatures", {"num_bundles": 2}, expect="refused")
 judge("skr", ksrxml.render_skr(_skB).encode(), "sequence:skr-other-ksk-under-known-identifier-honestly-signed", {"num_bundles": 2}, expect="object")
+# a bundle carrying, next to the valid signature of a key, a second signature naming the same key that does not verify: "fully validated" means every signature
+import base64 as _b64
+import copy as _copy
+_seq9 = dict(rsa_approved_key_sizes=[1024], num_bundles=9)
+for v_ in range(8 * SCALE):
+    rq_ = _copy.deepcopy({**req9, "bundles": [dict(b_, sigs=[dict(s_) for s_ in b_["sigs"]]) for b_ in req9["bundles"]]})
+    j_ = R.randrange(9)
+    b_ = rq_["bundles"][j_]
+    stray = dict(R.choice(b_["sigs"]))
+    stray["data"] = bytes(R.randrange(256) for _ in range(len(stray["data"])))
+    if v_ % 3 == 1:
+        stray["inc"] = stray["inc"] + D(seconds=1)         # a signature over other times: another RRSIG by the same key, not a duplicate
+    b_["sigs"] = ([stray] + b_["sigs"]) if v_ % 2 else (b_["sigs"] + [stray])
+    judge("ksr", ksrxml.render_ksr(rq_).encode(), f"stray-signature:ksr-{v_}", _seq9, expect="refused")
+    sk_ = skrgen.simulate_skr(req9, schema, KS, ksrxml.default_zsk_policy())
+    bb_ = sk_["bundles"][j_]
+    stray = dict(bb_["sigs"][0])
+    stray["data"] = bytes(R.randrange(256) for _ in range(len(stray["data"])))
+    sk_["bundles"][j_] = dict(bb_, sigs=([stray] + bb_["sigs"]) if v_ % 2 else (bb_["sigs"] + [stray]))
+    judge("skr", ksrxml.render_skr(sk_).encode(), f"stray-signature:skr-{v_}", None, expect="refused")
 # size cap: exactly 1 MiB is read, one byte more is refused before reading
 pad = lambda doc, n: (doc + " " * (n - len(doc.encode()))).encode()
 judge("ksr", pad(KSR9, 1024 * 1024), "size:exactly-1MiB", POL9, expect="object")
